@@ -27,6 +27,11 @@ META = dict(
 
 def tasks(tier):
     ts = [Task('props.C04:t_lemmas', name='C04/conservation-lemmas', timeout=600)]
+    # the conservation lemmas are stated over the CONTRACTS of the grid helpers (trapezoid factors Delta_k, spacings, midpoints, coefficients):
+    # the code of those helpers is checked against the contracts here too, so a change to them fails under this property as well as under C02
+    for f in ('compute_dx', 'compute_xInt', 'compute_dfactor'):
+        ts.append(Task('props.C04:t_shared', name='C04/shared.' + f, fname=f, timeout=300))
+    ts.append(Task('props.C04:t_shared', name='C04/shared.compute_abc_nobc', fname='abc', timeout=600))
     for K in (1, 2, 3, 4, 5):
         ts.append(Task('props.wire:run', name='C04/wire.inject.%d' % K, fname='c04_inject', kwargs=dict(K=K), timeout=600))
     for name, K in (('two_pops', 2), ('three_pops', 3), ('four_pops', 4), ('five_pops', 5)):
@@ -59,6 +64,16 @@ def t_lemmas():
     from contracts import c_verify as V
     return V.conservation_lemma() + V.dfactor_weights_lemma()
 
+
+def t_shared(fname):
+    from contracts import c_verify as V
+    from contracts import c_shared as CS
+    rs = V.verify_abc() if fname == 'abc' else V.verify_simple(fname, CS.SHARED)
+    for r in rs:
+        r['id'] = r['id'].replace('C02/', 'C04/', 1)
+        if r.get('finding_key'):
+            r['finding_key'] = r['finding_key'].replace('C02/', 'C04/', 1)
+    return rs
 
 MANIFEST_ENTRY = dict(
     category='other',
